@@ -36,13 +36,13 @@ func (c *Conn) handleIdle(dec *imapwire.Decoder) error {
 	}()
 
 	c.setReadTimeout(idleReadTimeout)
-	line, isPrefix, err := c.br.ReadLine()
+	line, tooLong, err := c.readLine()
 	close(stop)
 	if err == io.EOF {
 		return nil
 	} else if err != nil {
 		return err
-	} else if isPrefix || string(line) != "DONE" {
+	} else if tooLong || string(line) != "DONE" {
 		return newClientBugError("Syntax error: expected DONE to end IDLE command")
 	}
 
